@@ -1,3 +1,3 @@
 SPECIFICATION Spec
-INVARIANT LiteralsAreInert CorpusLiteralsAreLiterals NearMissDiscipline DispatchAll NestedLiteralUntouched NestedInCollectionsUntouched LiteralCollectionsUntouched IllFormedOperationIsNotALiteral DispatchedInEveryPosition ExportCases
+INVARIANT LiteralsAreInert CorpusLiteralsAreLiterals NearMissDiscipline DispatchAll NestedLiteralUntouched NestedInCollectionsUntouched LiteralCollectionsUntouched IllFormedOperationIsNotALiteral DispatchedInEveryPosition BareOperandIsStillAnOperation ExportCases
 CHECK_DEADLOCK FALSE
